@@ -23,6 +23,10 @@ structure GenArgs where
   versionPath : Option String := none
   /-- `_version_locations`, each through `os.path.normpath` -/
   locations : List String := []
+  /-- `command.revision(sql=True)` while `revision_environment` is not configured (command layer) -/
+  sqlNoEnv : Bool := false
+  /-- the configured `timezone` names a zone `zoneinfo` knows (as written or upper-cased), or none is configured -/
+  tzOk : Bool := true
   deriving Repr, Inhabited
 
 def hasDup : List (Option Id) → Bool
@@ -39,9 +43,11 @@ def resolveDependsOn (m : LMap) (dep : String) : Except Err String := do
 /-- head resolution, duplicate-head check, version-path check, splice check, `depends_on`
     resolution: the down revisions and the dependencies as they will be written -/
 def resolveArgs (m : LMap) (a : GenArgs) : Except Err (List Id × List String) := do
+  if a.sqlNoEnv then throw .commandError                              -- "Using --sql with the revision command when revision_environment is not configured ..."
   if a.revid.toList.any (· ∈ illegalChars) then throw .revisionError  -- `verify_rev_id` (CommandError from RevisionError)
   let heads ← getRevisionsMany m a.heads
   if hasDup heads then throw .commandError                           -- "Duplicate head revisions specified"
+  if !a.tzOk then throw .commandError                                -- `_generate_create_date`: "Can't locate timezone"
   -- the version path: taken from the first head when several locations are configured and none
   -- is given ("please specify --version-path" when there is no head); a given path has to BE one
   -- of the configured locations (also with `recursive_version_locations`)
@@ -65,14 +71,15 @@ def labelsFree (taken : List String) : List String → Bool
   | [] => true
   | l :: ls => !(l ∈ taken) && labelsFree (l :: taken) ls
 
-/-- the four identifier values handed to the template.  A taken branch label is refused here,
-    BEFORE anything is written (it used to be noticed only by `add_revision`, with the file
-    already on disk: F14). -/
+/-- the four identifier values handed to the template.  A revision id that is already a key of
+    the map (a revision id or a branch label; since the fix of F16) and a taken branch label
+    (since the fix of F14) are refused here, in this order, BEFORE anything is written. -/
 def generateRevision (m : LMap) (a : GenArgs) : Except Err Rev :=
   match resolveArgs m a with
   | .error e => .error e
   | .ok (down, deps) =>
-    if labelsFree (a.revid :: keysOf m) a.labels then
+    if a.revid ∈ keysOf m then .error .commandError                   -- "Revision identifier ... is already present in the revision history"
+    else if labelsFree (a.revid :: keysOf m) a.labels then
       .ok { id := a.revid, down := down, deps := deps, labels := a.labels }
     else .error .commandError                                         -- "Branch name ... already used by revision ..."
 
